@@ -359,6 +359,9 @@ def run(ctx):
     import tbl
     tbl.rule_language(ctx, 'C06.R4', probes=('anchors', 'sc'), what="'^' rules only at beginning of line, '$' and r/s competing with the length of r followed by s")
     rep.floor('C06.R4', 18, 'language probes x table representations')
+    import act_tbl
+    act_tbl.trail_rule(ctx, rep, 'C06.R5')
+    rep.floor('C06.R5', 30, 'rules of the trailing-context probes')
     return rep.finish('other',
         "Generator side: the IR of parse.c is partitioned into grammar actions (blocks dominated by a case label of bison's action switch); the action that "
         "sets bol_needed must distribute into scbol[] only and every other into scset[] only, and ntod must read scbol[] under an even start-state number.  "
